@@ -68,6 +68,10 @@ struct RunSpec {
     /// the application polls the window's expiry (`Pase::check_comm_window_timeout`, what
     /// `InteractionModel::run` does every second) after every step
     poll: bool,
+    /// the first n handshakes are *rude wrong proofs*: the confirmation in their Pake3 is altered in
+    /// flight and the peer goes silent afterwards (the device's failure report is never acknowledged);
+    /// the window is opened for 890 s so that twenty of them fit
+    rude: usize,
 }
 
 #[derive(Clone, Debug, PartialEq, Eq, Hash)]
@@ -121,7 +125,7 @@ fn build(spec: &RunSpec) -> Result<World, String> {
     let (mi, mi2, mr) = (i.get(), i2.get(), r.get());
     if spec.window_at_start {
         let c = nodes::crypto(SeededRng::new(spec.seed + 5));
-        mr.open_basic_comm_window(WINDOW_SECS, &c, &()).map_err(|e| format!("open window: {:?}", e))?;
+        mr.open_basic_comm_window(if spec.rude > 0 { 890 } else { WINDOW_SECS }, &c, &()).map_err(|e| format!("open window: {:?}", e))?;
     }
     let obs = Rc::new(RefCell::new((Vec::new(), Vec::new(), 0usize)));
     let mut exec = Exec::new();
@@ -142,14 +146,27 @@ fn build(spec: &RunSpec) -> Result<World, String> {
         let seed = spec.seed + k as u64 * 7;
         let passcodes = spec.passcodes.clone();
         let start_delay_s = spec.start_delay_s;
+        let rude = spec.rude;
         exec.spawn(if k == 0 { "I" } else { "I2" }, async move {
             let c = nodes::crypto(SeededRng::new(seed + 10));
             let client = async {
                 if start_delay_s > 0 {
                     embassy_time::Timer::after(embassy_time::Duration::from_secs(start_delay_s)).await;
                 }
-                for pc in passcodes {
-                    let r: Result<(), Error> = Exchange::initiate_pase(m, &c, addr_of(1), pc).await.map(|_| ());
+                for (n, pc) in passcodes.into_iter().enumerate() {
+                    let r: Result<(), Error> = if n < rude && k == 0 {
+                        // (a rude peer does not wait for the verdict)
+                        match embassy_time::with_timeout(embassy_time::Duration::from_secs(4), Exchange::initiate_pase(m, &c, addr_of(1), pc)).await {
+                            Ok(r) => r.map(|_| ()),
+                            Err(_) => {
+                                // (the device takes one handshake at a time: let it finish with this one)
+                                embassy_time::Timer::after(embassy_time::Duration::from_secs(25)).await;
+                                Err(rs_matter::error::ErrorCode::RxTimeout.into())
+                            }
+                        }
+                    } else {
+                        Exchange::initiate_pase(m, &c, addr_of(1), pc).await.map(|_| ())
+                    };
                     let mut o = obs2.borrow_mut();
                     let res = r.map_err(|e| format!("{:?}", e.code()));
                     if k == 0 {
@@ -209,10 +226,11 @@ fn run(spec: &RunSpec, other_wire: Option<&[Dgram]>) -> Result<Summary, String> 
     let clients = if spec.second_initiator { 2 } else { 1 };
     let mut known_r_sessions = 0usize;
     // reference: the instant the window the harness opened last expires (None: no window)
-    let mut ref_expiry: Option<u64> = if spec.window_at_start { Some(START_US + WINDOW_SECS as u64 * 1_000_000) } else { None };
+    let mut ref_expiry: Option<u64> = if spec.window_at_start { Some(START_US + if spec.rude > 0 { 890 } else { WINDOW_SECS as u64 } * 1_000_000) } else { None };
+    let (mut rude_done, mut silence) = (0usize, false);
     loop {
         let now = vclock::now();
-        if now > START_US + 900_000_000 {
+        if now > START_US + if spec.rude > 0 { 3_000_000_000 } else { 900_000_000 } {
             break;
         }
         if w.net.0.borrow().log.len() > 2000 {
@@ -234,7 +252,27 @@ fn run(spec: &RunSpec, other_wire: Option<&[Dgram]>) -> Result<Summary, String> 
             let nth = matches(&Target { from: 0, opcode: 0, nth: 0 }, &d, &mut seen);
             let op = sc_opcode(&d.bytes).map(|x| x.0);
             let mut handled = false;
-            if let (Some(nth), Some(op)) = (nth, op) {
+            if spec.rude > 0 {
+                if d.from == 0 && op == Some(0x20) {
+                    // a new handshake begins: the peer talks again
+                    silence = false;
+                }
+                let first_tx = w.net.0.borrow().log.iter().filter(|x| x.from == d.from && x.bytes == d.bytes && x.id < d.id).count() == 0;
+                if d.from == 0 && op == Some(0x24) && first_tx && rude_done < spec.rude {
+                    match mutate(&d.bytes, &Mutn::FlipFirst(1), None) {
+                        Some(nb) => w.net.0.borrow_mut().inflight[0].bytes = nb,
+                        None => return Err("harness: the confirmation of Pake3 could not be altered".into()),
+                    }
+                    rude_done += 1;
+                    silence = true;
+                    w.net.deliver(0, false);
+                    handled = true;
+                } else if silence && d.from == 1 && d.to == 0 {
+                    w.net.drop_dgram(0);
+                    handled = true;
+                }
+            }
+            if let (Some(nth), Some(op), false) = (nth, op, handled) {
                 let first_tx = w.net.0.borrow().log.iter().filter(|x| x.from == d.from && x.bytes == d.bytes && x.id < d.id).count() == 0;
                 if first_tx {
                     if let Some((t, a)) = &spec.window_action {
@@ -436,6 +474,7 @@ fn judge(spec: &RunSpec, s: &Summary) -> Vec<(String, String)> {
     }
     // (iv) the untouched handshake with the right passcode and an open window succeeds
     if spec.target.is_none() && spec.window_action.is_none() && !spec.second_initiator && spec.window_at_start && spec.passcodes.len() <= 20 {
+        let right = right.saturating_sub(spec.rude);
         if rs.len() != right || is.len() != right {
             v.push(("C02:untouched-handshake-fails".into(), format!("sessions I {} R {} expected {}; results {:?}", is.len(), rs.len(), right, s.results)));
         }
@@ -446,6 +485,18 @@ fn judge(spec: &RunSpec, s: &Summary) -> Vec<(String, String)> {
         }
     }
     // (v) revocation after twenty failed proofs
+    if spec.rude > 0 {
+        // every altered confirmation is a failed proof, acknowledged failure report or not
+        if s.window_open_at_end && (s.max_failures_seen as usize) < spec.rude.min(19) {
+            v.push(("C02:failed-proof-not-counted:failure-report-never-acknowledged".into(), format!("{} handshakes with an altered confirmation whose failure report was never acknowledged, failure counter reached {}", spec.rude, s.max_failures_seen)));
+        }
+        if spec.rude >= 20 && s.window_open_at_end {
+            v.push(("C02:window-not-revoked-after-20-failures:failure-report-never-acknowledged".into(), format!("{} handshakes with an altered confirmation, window still open, counter {}", spec.rude, s.failures_at_end)));
+        }
+        if s.r_sessions.len() > spec.passcodes.len().saturating_sub(spec.rude) {
+            v.push(("C02:session-after-an-altered-confirmation".into(), format!("{} sessions at the device, {} handshakes were left alone", s.r_sessions.len(), spec.passcodes.len().saturating_sub(spec.rude))));
+        }
+    }
     let wrong = spec.passcodes.iter().filter(|p| **p != DEVICE_PASSCODE).count();
     if spec.window_at_start && spec.target.is_none() && spec.window_action.is_none() && wrong >= 20 && s.window_open_at_end {
         v.push(("C02:window-not-revoked-after-20-failures".into(), format!("{} wrong-passcode handshakes, window still open, counter {}", wrong, s.failures_at_end)));
@@ -458,7 +509,7 @@ fn judge(spec: &RunSpec, s: &Summary) -> Vec<(String, String)> {
 }
 
 fn spec_json(s: &RunSpec) -> Value {
-    json!({"passcodes": s.passcodes, "window_at_start": s.window_at_start, "second_initiator": s.second_initiator, "seed": s.seed, "start_delay_s": s.start_delay_s, "poll": s.poll,
+    json!({"passcodes": s.passcodes, "window_at_start": s.window_at_start, "second_initiator": s.second_initiator, "seed": s.seed, "start_delay_s": s.start_delay_s, "poll": s.poll, "rude": s.rude,
         "target": s.target.as_ref().map(|(t, m)| json!({"from": t.from, "opcode": t.opcode, "nth": t.nth, "mutation": format!("{:?}", m)})),
         "window_action": s.window_action.as_ref().map(|(t, a)| json!({"from": t.from, "opcode": t.opcode, "nth": t.nth, "action": format!("{:?}", a)}))})
 }
@@ -473,6 +524,7 @@ fn replay(ctx: &Ctx, path: &std::path::Path) -> i32 {
         second_initiator: r["second_initiator"].as_bool().unwrap_or(false),
         seed: r["seed"].as_u64().unwrap_or(100),
         start_delay_s: r["start_delay_s"].as_u64().unwrap_or(0),
+        rude: r["rude"].as_u64().unwrap_or(0) as usize,
         poll: r["poll"].as_bool().unwrap_or(false),
         target: if r["target"].is_null() { None } else { Some((tgt(&r["target"]), parse_mutn(r["target"]["mutation"].as_str().unwrap_or("")))) },
         window_action: if r["window_action"].is_null() {
@@ -543,7 +595,7 @@ pub fn run_check(ctx: &Ctx) -> i32 {
     }
     let quick = ctx.tier == Tier::Quick;
     let seed = 300 + ctx.seed;
-    let base = RunSpec { passcodes: vec![DEVICE_PASSCODE], window_at_start: true, target: None, window_action: None, second_initiator: false, seed, start_delay_s: 0, poll: false };
+    let base = RunSpec { passcodes: vec![DEVICE_PASSCODE], window_at_start: true, target: None, window_action: None, second_initiator: false, seed, start_delay_s: 0, poll: false, rude: 0 };
     let mut specs: Vec<RunSpec> = Vec::new();
     // (a) passcode pairs, no window, second initiator
     for pcs in [vec![DEVICE_PASSCODE], vec![DEVICE_PASSCODE - 1], vec![DEVICE_PASSCODE + 1], vec![0], vec![99_999_998], vec![DEVICE_PASSCODE - 1, DEVICE_PASSCODE], vec![1, 2, 3, DEVICE_PASSCODE]] {
@@ -560,6 +612,10 @@ pub fn run_check(ctx: &Ctx) -> i32 {
     p.push(DEVICE_PASSCODE);
     specs.push(RunSpec { passcodes: p, ..base.clone() });
 
+    // (d') rude wrong proofs: the confirmation altered, the failure report never acknowledged
+    for n in [1usize, 19, 20, 21] {
+        specs.push(RunSpec { passcodes: vec![DEVICE_PASSCODE; n + 1], rude: n, ..base.clone() });
+    }
     // honest wire logs for catalogs
     let honest = match run(&base, None) {
         Ok(h) => h,
